@@ -186,11 +186,62 @@ def run(tier: str) -> int:
             chk.violation(clause, info)
     chk.notes["family_S"] = stats
     run_family_t(chk, tier)
+    run_family_p(chk, tier)
     for id_ in list(metas)[:: max(1, len(metas) // 4)][:4]:
         chk.sample({k: metas[id_][k] for k in ("fam", "toks", "src", "opts", "out")})
     chk.exhaustive = True
     chk.explanation = "RenderRead.tla explored completely up to the bound; every realisable document replayed and validated"
     return chk.finish()
+
+
+SNIPPETS = [
+    ("para", "Plain paragraph text here."), ("escapes", "1\\. not a list"), ("escapes2", "\\# not heading and 2\\) paren"), ("heading", "## Heading two"),
+    ("setext", "Setext title\n==="), ("bullet", "- item a\n- item b"), ("bullet_esc", "- 2\\. text in item\n- b"), ("ordered", "3. three\n4. four"),
+    ("quote", "> quoted line"), ("code", "```\ncode\n```"), ("table", "| A | B |\n|---|---|\n| x | y |"), ("hr", "* * *"),
+    ("def", "[ref]: http://example.com/x \"T\""), ("footnote", "[^n]: Note text."), ("html", "<div>inline html</div> text"),
+    ("hardbreak", "line one\\\nline two"), ("task", "- [ ] todo\n- [x] done"), ("alert", "> [!NOTE]\n> Body."), ("link", "See [ref] and [t](http://u.v \"ti\")."),
+    ("emph", "*em* **strong** `code` ~~del~~"), ("nested", "- a\n  - b\n\n    para in b"), ("digits", "1986\\. A year"),
+]
+
+
+def eval_p(job):
+    (na, a), (nb, b), opts = job
+    x = a + "\n\n" + b + "\n"
+    r = docs.eval_text(x, opts)
+    r.update(src=x, opts=opts, pair=[na, nb])
+    r.pop("mdit_tree_in", None)
+    return r
+
+
+def run_family_p(chk: Check, tier: str) -> None:
+    jobs = [(sa, sb, o) for sa in SNIPPETS for sb in SNIPPETS for o in (OPTS_S if tier == "thorough" else OPTS_S[:1])]
+    traces, metas = [], {}
+    for tid, (job, r) in enumerate(zip(jobs, pmap(eval_p, jobs, chunksize=40)), 1):
+        chk.evaluations += 1
+        if "exc" in r:
+            chk.violation("NoException", dict(src=r["src"], opts=r["opts"], exc=r["exc"]))
+            continue
+        traces.append(docs.trace_of(tid, "P", r))
+        metas[tid] = dict(fam="P", pair=r["pair"], src=r["src"], opts=r["opts"], out=r["out1"])
+        chk.nontriv(("P", r["pair"][0], r["pair"][1], docs.dumps(r["opts"])))
+    reports, gen, dist = tlc.validate_traces("DocTrace", traces, cfg=docs.DOC_TRACE_CFG, timeout=3000)
+    chk.states += dist
+    chk.transitions += gen
+    chk.traces += len(traces)
+    bad = 0
+    for t in traces:
+        _, id_, _acc, dm, di, _idem, _rt, _pfx, _hz = reports[t["id"]]
+        if dm or di:
+            bad += 1
+            m = metas[id_]
+            a, b = t["tm_in"], t["tm_out"]
+            only_loosened = len(a) == len(b) and all(x == y or (x.startswith("list:") and x.replace(":tight(", ":loose(") == y) for x, y in zip(a, b))
+            if "nested" in m["pair"] and only_loosened and "D44" in chk.open_findings:
+                chk.known_finding("D44", m)
+                continue
+            chk.violation("SameDocument(marko)" if dm else "SameDocument(markdown-it)",
+                          dict(m, first_diff_marko=dm, first_diff_mdit=di, marko_in=t["tm_in"][max(0, dm - 2): dm + 2], marko_out=t["tm_out"][max(0, dm - 2): dm + 2]))
+    chk.notes["family_P"] = dict(pairs=len(traces), failing=bad)
 
 
 def run_family_t(chk: Check, tier: str) -> None:
